@@ -466,10 +466,15 @@ def _declare_huge(rng, spec, last, o):
     if not cands:
         return
     chosen = sorted(rng.sample(cands, rng.randint(1, min(3, len(cands)))))
+    layout = rng.choice(['interleaved', 'contiguous'])
+    if layout == 'contiguous' and len(chosen) > 1 and getattr(o, 'declared_huge_rows_only', False):
+        # for files that are going to be cut: a stated-short contiguous chunk of several channels that is cut as well has
+        # no defined reading (C06 is about complete files cut once), rows and single channels have
+        layout = 'interleaved'
     n = rng.randint(1, 5)
     row = sum(fmt.size_of(last[p]['type']) for p in chosen)
     big = 2**32 // row + rng.randint(1, 1000)
-    seg = {'endian': prev['endian'], 'layout': rng.choice(['interleaved', 'contiguous']), 'pad': 0, 'meta': True,
+    seg = {'endian': prev['endian'], 'layout': layout, 'pad': 0, 'meta': True,
            'new_obj_list': True, 'chunks': 1, 'short_last': n, 'declared_huge': True,
            'listed': [{'path': p, 'index': 'full', 'type': last[p]['type'], 'count': big, 'props': []} for p in chosen],
            'data': {p: [gen_values(rng, last[p]['type'], n, o.ts_range)] for p in chosen}}
